@@ -143,6 +143,7 @@ impl Prop for C05 {
         let (mut cfg, off) = c01::pcfg(cx);
         cfg.max_fns = 6;
         cfg.records = false;
+        cfg.nested_tuples = true;
         let no_lambda = cx.excluded(KF_WASM_CLOSURE_WORDS);
         if no_lambda {
             cfg.closures = false;
